@@ -206,6 +206,13 @@ func RunHash(outDir string, seed int64, tier string) error {
 			q.Period += time.Duration(1+g.r.Intn(999)) * time.Millisecond
 			e.infoCase(q, "subsecond")
 			e.paths(grp, filepath.Join(tmp, fmt.Sprintf("s%d-%d", si, k)))
+			// every path that carries a chain info, also for periods that are not whole seconds
+			e.infoPaths(info, "whole seconds")
+			for _, ms := range []int64{2500, 1001, 500, 999, 1999, 1 + g.r.Int63n(120000)} {
+				q = cloneInfo(info)
+				q.Period = time.Duration(ms) * time.Millisecond
+				e.infoPaths(q, "period with a fraction of a second")
+			}
 		}
 	}
 	// ---- malformed / boundary stream (model must still agree) ----
